@@ -132,6 +132,7 @@ def run(ctx) -> None:
 
     # ---------------------------------------------------------------- check-then-act
     locked_flags = {f for f, ls in flags.items() if any(l != "<none>" for l in ls)}
+    unguarded_spawns = set()
     for m, ps in methods.items():
         seen = set()
         for p in ps:
@@ -153,6 +154,7 @@ def run(ctx) -> None:
                     if key in seen:
                         continue
                     seen.add(key)
+                    unguarded_spawns.add(key)
                     ctx.viol(
                         RC,
                         f"AutoRestartTrick.{m} flag={unlocked_tests[-1]}",
@@ -161,6 +163,45 @@ def run(ctx) -> None:
                     )
         if not seen and any(e.kind == "call" and e.extra.get("func") == "subprocess.Popen" for p in ps for e in p.evs):
             ctx.ok(RC, f"AutoRestartTrick.{m} spawn is not guarded by an unlocked flag test alone", A.methods[m].loc)
+
+    # ---------------------------------------------------------------- a batch callback in flight excludes stop()
+    # The spawn in _start_process is guarded by an unlocked flag test only (known finding above), so the debouncer-driven
+    # restart is safe against stop() for a different reason: the debouncer holds its condition while the callback runs, and
+    # AutoRestartTrick.stop() goes through debouncer.stop() -- which takes that condition -- before it stops the child.  A
+    # restart in flight therefore finishes (child spawned) before stop() kills "the" child.  Either protection is enough.
+    RI = ctx.rule(
+        "C18/in-flight-callback-excludes-stop",
+        "the spawn of a debouncer-driven restart cannot straddle stop(): either the spawn is re-validated under the lock the stop flag "
+        "is set under, or the debouncer runs its callback with its condition held, its stop() takes that condition, and the trick's "
+        "stop() calls debouncer.stop() before stopping the child",
+        floor=1,
+    )
+    cb_locked, ncb2 = True, 0
+    for e, held, p in walk_with_locks(rp, lambda s: s):
+        if e.kind == "call" and e.extra.get("func") == "self.events_callback":
+            ncb2 += 1
+            if held.get("self._cond", 0) <= 0:
+                cb_locked = False
+    stop_takes = bool(sp) and all(any(e.kind == "acquire" and e.text == "self._cond" for e in p.evs) for p in sp if p.outcome[0] != "raise")
+    order_ok = True
+    for p in methods["stop"]:
+        fl = [(e.kind, e.extra.get("func") if e.kind == "call" else e.text) for e in p.evs]
+        ds = [i for i, (k, t) in enumerate(fl) if k == "call" and t == "self.event_debouncer.stop"]
+        ks = [i for i, (k, t) in enumerate(fl) if k == "inline" and str(t).endswith("._stop_process")]
+        if ds and ks and min(ks) < min(ds):
+            order_ok = False
+    via_debouncer = cb_locked and ncb2 > 0 and stop_takes and order_ok
+    ctx.check(
+        (not unguarded_spawns) or via_debouncer,
+        RI,
+        "AutoRestartTrick: debouncer-driven restart vs stop()",
+        "a restart started by the debouncer's callback can straddle stop(): the spawn is guarded only by an unlocked flag test "
+        f"({sorted(unguarded_spawns)}), and the debouncer does not exclude stop() while its callback runs "
+        f"(callback under the condition={cb_locked}, debouncer.stop() takes the condition={stop_takes}, debouncer stopped before the child={order_ok}): "
+        "stop() finds no child between the restart's kill and its spawn, returns, and the child spawned next stays alive together with its watcher thread",
+        D.methods["run"].loc,
+        {"callback_under_condition": cb_locked, "stop_takes_condition": stop_takes, "debouncer_stopped_before_child": order_ok, "unguarded_spawns": sorted(unguarded_spawns)},
+    )
 
     # ---------------------------------------------------------------- stop must-effects (single-threaded valuation: no havoc)
     cfg2 = ThreadCfg(P, follow_attrs=False, no_inline={"join", "start"})
@@ -250,6 +291,9 @@ DB = "utils/event_debouncer.py"
 TR = "tricks/__init__.py"
 PW = "utils/process_watcher.py"
 VARIANTS = [
+    dict(name="B callback runs with the condition released", expect="fire", rule="C18/in-flight-callback-excludes-stop", edits=[(DB, "                self._events = []\n                self.events_callback(events)", "                self._events = []\n                self._cond.release()\n                try:\n                    self.events_callback(events)\n                finally:\n                    self._cond.acquire()")]),
+    dict(name="B trick stops the child before the debouncer", expect="fire", rule="C18/in-flight-callback-excludes-stop", edits=[("tricks/__init__.py", "        if self.event_debouncer is not None:\n            self.event_debouncer.stop()\n        self._stop_process()\n", "        self._stop_process()\n        if self.event_debouncer is not None:\n            self.event_debouncer.stop()\n")]),
+    dict(name="E callback outside the condition, spawn re-validated under the stopping lock", expect="silent", edits=[(DB, "                self._events = []\n                self.events_callback(events)", "                self._events = []\n                self._cond.release()\n                try:\n                    self.events_callback(events)\n                finally:\n                    self._cond.acquire()"), ("tricks/__init__.py", "        if self._is_trick_stopping:\n            return\n\n        # windows doesn't have setsid\n        self.process = subprocess.Popen(self.command, preexec_fn=getattr(os, \"setsid\", None))\n", "        with self._stopping_lock:\n            if self._is_trick_stopping:\n                return\n            # windows doesn't have setsid\n            self.process = subprocess.Popen(self.command, preexec_fn=getattr(os, \"setsid\", None))\n")]),
     dict(name="B debouncer waits without predicate (pre-fix)", expect="fire", rule="C18/monitor-discipline", edits=[(DB, "                while not self._events and self.should_keep_running():\n                    self._cond.wait()", "                self._cond.wait()")]),
     dict(name="B batch not reset", expect="fire", rule="C18/batch-handover", edits=[(DB, "                events = self._events\n                self._events = []\n                self.events_callback(events)", "                events = self._events\n                self.events_callback(events)")]),
     dict(name="B callback after stop", expect="fire", rule="C18/batch-handover", edits=[(DB, "                if not self.should_keep_running():\n                    break\n\n                events = self._events", "                events = self._events")]),
